@@ -20,6 +20,15 @@ CHECKS = {
  "C09": dict(tech="model-based stateful property testing of the SAT solver: decide/pop histories vs. brute-force entailment, recorded-state model and fresh-solver differential",
    text="Generated search: random CNFs x decide/pop histories; after every step soundness (entailment by brute force), conflict soundness, fixpoint (no falsified clause, no clause with exactly one unassigned literal), satisfied flag, exact undo of model/hash/flag/difference, hash=>residual, and agreement with a fresh solver replaying the surviving decisions. Falsification only; n <= 6, <= 40 steps.",
    note="Trusted: harness clause semantics and truth tables; model reconstructed from difference_iter. Hash clause asserted only below the 2^128 prime-product bound.", ref="5/C09"),
+ "C13": dict(tech="exhaustive enumeration of small carriers + property-based testing of algebraic laws against arbitrary-precision-safe reference arithmetic",
+   text="Complete enumeration of all triples of GF(2..13) and of the 8^3 boundary residues of every exported prime, plus generated triples (random 128-bit residues for all 7 primes; exact integers/dyadics for real, complex, expected utility; all Boolean triples; naturals for rational; polynomials of 0..32 coefficients over reals and three finite fields): every semiring law, reference modular arithmetic, ring subtraction, lattice laws. Exhaustive on the small carriers, falsification only elsewhere.",
+   note="Trusted: harness mulmod/addmod/submod and truncated convolution; f64 exactness of the chosen value sets.", ref="5/C13"),
+ "C14": dict(tech="property-based testing of derived structures against definitions recomputed from the CNF / tree shape",
+   text="Generated search: random CNFs x four elimination orders for order/dtree/derived-vtree well-formedness (permutation, inverse maps, leaf clauses, vars, cutsets, cutwidth, vtree leaves); random vtrees (<=12 leaves, all shape families, non-contiguous labels) for in-order indices, subtree lookup, lca of all node pairs, prime relation from the shape, variable count; LeastCommonAncestor on random binary trees for all index pairs. Falsification only.",
+   note="Trusted: harness set computations and in-order numbering. CNFs without clauses (dtree, FORCE) and with an empty clause (FORCE) excluded by construction and counted.", ref="5/C14"),
+ "C15": dict(tech="property-based + model-based stateful testing of CNF utilities, partial models, variable sets and the residual hasher against set-theoretic models",
+   text="Generated search: clause lists incl. all edge cases for construction/eval/is_sat_partial/condition/exact brute-force counting (n = 0 included); stateful histories on PartialModel/VarSet vs Vec/BTreeSet models; push/decide/pop/hash histories of CnfHasher with residual-signature oracle in both directions (the converse below the 128-bit bound). Falsification only.",
+   note="Trusted: harness evaluator and set models. hash compared only for assignments that falsify no clause and contain the decisions in effect.", ref="5/C15"),
 }
 
 NOT_YET = {
